@@ -463,7 +463,11 @@ func keyOf(kind string, raw json.RawMessage) objKey {
 		} `json:"metadata"`
 	}
 	_ = json.Unmarshal(raw, &m)
-	return objKey{kind, m.Metadata.Namespace, m.Metadata.Name}
+	ns := m.Metadata.Namespace
+	if kind == "NetworkPolicy" && ns == "" { // the engine keeps a NetworkPolicy without namespace under "default"
+		ns = "default"
+	}
+	return objKey{kind, ns, m.Metadata.Name}
 }
 
 func safeOp(f func() error) (s string) {
